@@ -102,6 +102,12 @@ Theorem C09_new_header_roundtrip : forall t n st body,
 Proof. exact new_header_roundtrip. Qed.
 Print Assumptions C09_new_header_roundtrip.
 
+(* whatever width was stored, a new-format header is the tag octet followed by the shortest length field (C09_new_length_shortest) *)
+Theorem C09_new_header_emit_shape : forall t n st, 0 <= t < 64 ->
+  header_emit {| h_lenfmt := 1; h_tag := t; h_llen := st; h_len := n |} = Some ((192 + t) :: new_length n).
+Proof. exact new_header_emit_shape. Qed.
+Print Assumptions C09_new_header_emit_shape.
+
 (* multiprecision integers *)
 Theorem C09_mpi_roundtrip : forall v r, 0 <= v -> bit_length v < 65536 -> mpi_parse (to_mpibytes v ++ r) = (v, r).
 Proof. exact mpi_roundtrip. Qed.
